@@ -169,6 +169,60 @@ def _policy_blocks(stdout):
     return res
 
 
+def catchall_leg(ck, H):
+    """A scan that ends in an exception only the worker's catch-all handles (a targets-file line in bracket notation whose host name
+    no resolver accepts - an empty label makes the lookup raise UnicodeError): the error is reported for that line, every other
+    target gets its report, the status is the internal-error status (the highest rank)."""
+    bad = ('line', '[bad..name.example]:2222', 'bad..name.example:2222')
+    arch = {n: ('server', H[n]) for n in ('good', 'warn', 'fail')}
+    singles = {}
+    for n in arch:
+        for pos in range(3):
+            singles[(n, pos)] = runner.run_one(multi.single_scenario(arch[n], pos))
+    lists = [('bad', 'good'), ('good', 'bad'), ('fail', 'bad', 'warn'), ('bad', 'bad', 'good'), ('warn', 'good', 'bad')]
+    scs, meta = [], []
+    for lst in lists:
+        for k in (1, len(lst)):
+            sc, labels = multi.scenario([bad if n == 'bad' else arch[n] for n in lst], k, None, json_out=False)
+            scs.append(sc)
+            meta.append((lst, k, labels))
+    for (lst, k, labels), sc, r in zip(meta, scs, runner.run_many(scs)):
+        ck.evaluated()
+        replay = {'targets': lst, 'threads': k, 'argv': sc['argv'], 'exit': r.get('exit'), 'stdout': (r.get('stdout') or '')[-3500:]}
+        if r.get('harness_error'):
+            raise common.Machinery('run failed: %r' % r.get('harness_error'))
+        if r.get('hang'):
+            ck.violation('run-never-ends with=worker-catch-all', 'list %r, %d thread(s): the run never ended' % (lst, k), replay)
+            continue
+        out = r['stdout']
+        blocks = multi.split_text(out)
+        got = {}
+        for b_ in blocks:
+            lab = multi.label_of_block(b_, labels)
+            if lab:
+                got.setdefault(lab, []).append(b_)
+        bad_found = False
+        for i, n in enumerate(lst):
+            if n == 'bad':
+                continue
+            bl = got.get(labels[i], [])
+            ref = multi.normalise_single(singles[(n, i)]['stdout'])
+            if len(bl) != 1 or multi.strip_target_line(bl[0]).rstrip('\n') != ref:
+                ck.violation('healthy-result-missing-or-changed view=text with=worker-catch-all', 'list %r, %d thread(s): healthy target %s (%s) has %d blocks, expected exactly its single-target report'
+                             % (lst, k, labels[i], n, len(bl)), replay)
+                bad_found = True
+                break
+        if bad_found:
+            continue
+        if out.count('bad..name.example') < lst.count('bad'):
+            ck.violation('failed-target-not-reported with=worker-catch-all', 'list %r: the failing line is not mentioned %d time(s)' % (lst, lst.count('bad')), replay)
+        elif r['exit'] != 255:
+            ck.violation('exit-status-not-max with=worker-catch-all', 'list %r, %d thread(s): exit status %r, an internal error on one target ranks highest (255)' % (lst, k, r['exit']), replay)
+        else:
+            ck.cov['traces_validated_against_impl'] += 1
+            ck.nontrivial(('catchall', lst, k))
+
+
 def policy_leg(ck, H, F):
     """Policy audits (-P) over a target list: every healthy target gets exactly one verdict - the verdict of its single-target policy
     audit - whatever else is on the list, and the run's status is the highest-ranked status among the targets."""
@@ -424,6 +478,7 @@ def run(tier):
     duplicates_leg(ck, H)
     json_options_leg(ck, H)
     policy_leg(ck, H, F)
+    catchall_leg(ck, H)
     schedule_leg(ck, tier, H, F, rnd)
     verdicts = multi.validate(ck, traces)
     for j, ((m, tag), tr, (ok, info)) in enumerate(zip(tmeta, traces, verdicts)):
